@@ -9,7 +9,7 @@ import lib
 
 ID = "C14"
 LEAN_MODULE = "UralModel.Props.C14"
-THEOREMS_TODO = [
+THEOREMS = [
     "Ural.Props.C14.render_tokens",
     "Ural.Props.C14.tokens_render_canonical",
     "Ural.Props.C14.quote_tokens",
@@ -22,10 +22,7 @@ THEOREMS_TODO = [
     "Ural.Props.C14.unquote_no_space",
     "Ural.Props.C14.unquote_delimiters",
     "Ural.Props.C14.unquote_no_new_control",
-    "Ural.Props.C14.upper_quoted_spec",
-    "Ural.Props.C14.upper_quoted_pct",
 ]
-THEOREMS = []
 TABLE_OBLIGATIONS = [
     "Ural.Props.C14.tables_percent_unsafe",
     "Ural.Props.C14.tables_path_delims",
